@@ -1,7 +1,7 @@
 (* Async/ConnLoop.v — whole-close and loop-level consequences of ConnWrites/ConnTotal (C07 reuse clause). *)
 From Coq Require Import ZArith ZifyBool ZifyNat ZifyN Lia List.
 From FV Require Import Base.Bytes Base.BytesLemmas Gen.Generated Codec.Header Codec.Bodies
-  Parser.ReqModel Parser.StreamModel Parser.AbsStream Parser.StreamRefine Async.Conn Async.ConnWrites.
+  Parser.ReqModel Parser.StreamModel Parser.AbsStream Parser.StreamRefine Async.ConnTotal Async.ConnReads Async.Conn Async.ConnWrites.
 Import ListNotations.
 Open Scope N_scope.
 
@@ -126,3 +126,21 @@ Theorem run_loop_stopped (norm : bytes -> bytes) (maxc : N) fuel p scripts serve
   stopped w = true -> run_loop norm maxc (S fuel) p scripts served w = (ORet, w).
 Proof. intros Hs. cbn [run_loop]. rewrite Hs. reflexivity. Qed.
 Print Assumptions run_loop_iteration.
+
+(* ---------------------------------------------------------------------------------------------- *)
+(* C14, idle connections: the read between requests (inside the select with the stop listener) is given up as soon as
+   a shutdown is requested while the client keeps silent: the task returns, nothing is read, nothing is written. *)
+Theorem idle_read_is_interrupted f L w :
+  L <> 0 -> ConnReads.gated w -> stop_at w <> 0 -> stopped w = false ->
+  await_read (S f) true L w = Halt ORet (w_stop w).
+Proof.
+  intros HL G Hs Hn. cbn [await_read]. rewrite (G L HL). unfold on_block.
+  destruct (N.eqb_spec (stop_at w) 0) as [E|_]; [contradiction|]. rewrite Hn. reflexivity.
+Qed.
+
+(* ... and a shutdown that was requested earlier is noticed at the next wake-up of that read *)
+Theorem idle_read_sees_stop f L w w1 :
+  t_poll_read L w = (PWake, w1) -> stopped (w_bump w1) = true ->
+  await_read (S f) true L w = Halt ORet (w_bump w1).
+Proof. intros E Hs. cbn [await_read]. rewrite E. unfold on_wake. rewrite Hs. reflexivity. Qed.
+Print Assumptions idle_read_is_interrupted.
